@@ -167,6 +167,26 @@ ADDENDA4 = {
  "C18": " Round five: the ingest constructor seals its arguments as given; a reader that consumes into its own record compares the sealed payload type with the record's codec.",
  "C20": " Round five: address-list equality answers 'equal' only after both sorts, or in the empty / single-element case.",
 }
+ADDENDA5 = {
+ "C01": " Round six: what is recorded as latest-synced (the next sync's stop point) is the root CID the per-publisher routine was given — positional, in a request object (read back only if the routine cannot have written it) or in a result struct (its CID field is the root parameter itself).",
+ "C02": " Round six: the error of every call of the sync client in the per-publisher routine and its step helpers is tested or returned, not overwritten.",
+ "C04": " Round six: state of a running sync kept in the handler is written only after the per-publisher lock is taken.",
+ "C06": " Round six: records are compared by their own advertisement time (never the local clock); the map consulted first when the main map is rebuilt holds the pending updates of the loaded snapshot.",
+ "C07": " Round six: the map consulted first when the main map is rebuilt holds the pending updates of the loaded snapshot.",
+ "C08": " Round six: an announce-triggered sync records as latest-synced the announced head it was given.",
+ "C09": " Round six: the receiver's own host ID is recorded under no condition other than 'a host was given'.",
+ "C10": " Round six: the encoder writes to the writer it is given, or flushes its buffering layer before every successful return.",
+ "C11": " Round six: a decoding routine shared by the fixed-encoding protocols succeeds only after comparing all bytes read (tail-call decoders are judged there).",
+ "C13": " Round six: the byte decoders hand the codec a reader over their data parameter as given.",
+ "C14": " Round six: result-struct form of 'the CID notified is the root CID given'.",
+ "C15": " Round six: an admission helper may fail after registering only if it takes the registration back on that path.",
+ "C16": " Round six: the pubsub sender's Send contains no channel operation, select or wait; the rules about Close cover the phases it is split into.",
+ "C18": " Round six: the ingest request's record type is registered at package initialisation (or by the reader).",
+ "C19": " Round six: negotiation succeeds only with a supported media type found or with no Accept header at all.",
+ "C20": " Round six: the per-protocol values ToURL unescapes are the components' string values (not RawValue).",
+}
+for _pid, _extra in ADDENDA5.items():
+    ADDENDA4[_pid] = ADDENDA4.get(_pid, "") + _extra
 for _pid, _extra in ADDENDA4.items():
     ADDENDA3[_pid] = ADDENDA3.get(_pid, "") + _extra
 for _pid, _extra in ADDENDA3.items():
